@@ -280,7 +280,7 @@ func minFunctionCalculator(parameters []*variants.Variant,
 		if err != nil {
 			return nil, err
 		}
-		if temp.AsBoolean() {
+		if temp.Type() == variants.Boolean && temp.AsBoolean() {
 			result = value
 		}
 	}
@@ -304,7 +304,7 @@ func maxFunctionCalculator(parameters []*variants.Variant,
 		if err != nil {
 			return nil, err
 		}
-		if temp.AsBoolean() {
+		if temp.Type() == variants.Boolean && temp.AsBoolean() {
 			result = value
 		}
 	}
